@@ -13,6 +13,8 @@ package c14
 
 import (
 	"context"
+
+	"github.com/metrico/cloki-config/config"
 	"database/sql/driver"
 	"fmt"
 	"sort"
@@ -72,6 +74,10 @@ type execParams struct {
 	StepMs     int64 `json:"step_ms"`
 	Forward    bool  `json:"forward,omitempty"`
 	Complexity int64 `json:"complexity,omitempty"` // TraceQL: scripted answer of the complexity statement
+	// Configuration of the request: cluster mode (ClusterName != "") and the database name,
+	// from which tables.PopulateTableNames derives the table names (`db`.table_dist).
+	Cluster string `json:"cluster,omitempty"`
+	DB      string `json:"db,omitempty"`
 }
 
 // recorder is the fake database: logs statements, returns no rows.
@@ -107,10 +113,10 @@ type prepared interface {
 func newCtx(p execParams, rec *recorder) (*shared.PlannerContext, *fakesql.DB) {
 	rec.complexity = p.Complexity
 	fdb := fakesql.New(rec.handle)
-	conn, _ := fdb.Registry(nil).GetDB(context.Background())
+	conn, _ := fdb.Registry(&config.ClokiBaseDataBase{ClusterName: p.Cluster, Name: p.DB}).GetDB(context.Background())
 	ctx, cancel := context.WithCancel(context.Background())
 	pc := &shared.PlannerContext{
-		IsCluster:  false,
+		IsCluster:  p.Cluster != "", // conn.Config.ClusterName != "" in every service
 		From:       time.Unix(0, p.FromNs).UTC(),
 		To:         time.Unix(0, p.ToNs).UTC(),
 		OrderASC:   p.Forward,
